@@ -685,7 +685,11 @@ def water_filter_on_model(prog, r, where):
     spec = [("ATOM", 1, "N", "", "ALA", "A", 1, "", True), ("HETATM", 2, "O", "", "HOH", "A", 201, "", False), ("ATOM", 3, "O", "", "WAT", "A", 202, "", False),
             ("HETATM", 10000, "O", "", "HOH", "A", 203, "", False), ("HETATM", 99999, "H1", "A", "HOH", "B", 1204, "B", False),
             ("HETATM", 5, "C1", "", "LIG", "A", 301, "", True), ("ATOM", 6, "OW", "", "SOL", "A", 302, "", True), ("HETATM", 7, "ZN", "", "ZN", "A", 303, "", True),
-            ("ATOM", 8, "HOH", "", "GLY", "A", 2, "", True), ("HETATM", 2, "C2", "", "LIG", "B", 401, "", True)]  # the last one shares its serial with a water
+            ("ATOM", 8, "HOH", "", "GLY", "A", 2, "", True), ("HETATM", 2, "C2", "", "LIG", "B", 401, "", True),  # the last one shares its serial with a water
+            # residues whose names are pieces of the water names (an RNA adenosine is called A), or contain them
+            ("ATOM", 9, "P", "", "A", "C", 1, "", True), ("HETATM", 10, "O", "", "OH", "C", 2, "", True), ("HETATM", 11, "O", "", "O", "C", 3, "", True),
+            ("HETATM", 12, "W", "", "W", "C", 4, "", True), ("HETATM", 13, "O1", "", "HO", "C", 5, "", True), ("ATOM", 14, "N", "", "AT", "C", 6, "", True),
+            ("HETATM", 15, "O", "", "OHW", "C", 7, "", True)]
     try:
         records, keep = [], []
         for rec, serial, name, alt, res, chain, seq, ic, kept in spec:
